@@ -44,38 +44,116 @@ def _mk(kind):
     return GeckoUdpSocket()
 
 
+def _advance(obj, state):
+    """Black-box: bring a FRESH object to `state` through the public method only."""
+    p, c = state
+    for _ in range(p):
+        obj.get_and_increment_sequence_counter(False)
+    for _ in range(c - 191):
+        obj.get_and_increment_sequence_counter(True)
+
+
+def _euler_ops():
+    """Op sequence (False/True) that, started at torus state (1,192), traverses every edge of the
+    product of the two cycles exactly once (Hierholzer on the reference model's graph)."""
+    start = (1, 192)
+    out_edges = {}
+    stack = [(start, None)]
+    circuit = []
+    nxt_idx = {}
+    while stack:
+        v, op_in = stack[-1]
+        i = nxt_idx.get(v, 0)
+        if i < 2:
+            nxt_idx[v] = i + 1
+            op = bool(i)
+            w, _ = ref_next(v, op)
+            stack.append((w, op))
+        else:
+            stack.pop()
+            if op_in is not None:
+                circuit.append(op_in)
+    circuit.reverse()
+    return circuit
+
+
 def _bfs(kind):
-    obj = _mk(kind)
-    init = (obj._sequence_counter_protocol, obj._sequence_counter_command)
-    seen = {init}
-    q = deque([init])
-    transitions = 0
+    """Every reachable counter state x both operations, driven through the public method only,
+    in lock-step with the reference model (the object's fields are never read or written)."""
     viol = []
-    while q:
-        st = q.popleft()
-        for command in (False, True):
-            obj._sequence_counter_protocol, obj._sequence_counter_command = st
-            got = obj.get_and_increment_sequence_counter(command)
-            nxt = (obj._sequence_counter_protocol, obj._sequence_counter_command)
-            transitions += 1
-            exp_state, exp = ref_next(st, command)
-            lo, hi = (192, 255) if command else (1, 191)
-            if got != exp or nxt != exp_state or not (lo <= got <= hi):
-                viol.append(
-                    (
-                        f"C16|counter|{kind}|command={command}|state={st}",
-                        f"{kind} counter at {st} command={command}: returned {got}, state {nxt}; "
-                        f"model says {exp}, {exp_state}",
-                        {"mode": "counter", "impl": kind, "state": list(st), "command": command},
-                    )
-                )
-                continue
-            if nxt not in seen:
-                if len(seen) > 70000:
-                    viol.append((f"C16|counter|{kind}|unbounded", "state space does not close", {}))
-                    return seen, transitions, viol
-                seen.add(nxt)
-                q.append(nxt)
+    seen = set()
+    transitions = 0
+
+    def step(obj, st, command, ctxt):
+        nonlocal transitions
+        got = obj.get_and_increment_sequence_counter(command)
+        exp_state, exp = ref_next(st, command)
+        transitions += 1
+        seen.add(st)
+        seen.add(exp_state)
+        lo, hi = (192, 255) if command else (1, 191)
+        if got != exp or not (isinstance(got, int) and lo <= got <= hi):
+            viol.append((f"C16|counter|{kind}|command={command}|state={st}",
+                         f"{kind} counter in model state {st} ({ctxt}) command={command}: returned {got}, model says {exp}",
+                         {"mode": "counter", "impl": kind, "state": list(st), "command": command}))
+            return None
+        return exp_state
+
+    # transient states: (p,191) for p=0..191 and (0,c) for c=191..255, both ops at each
+    for p in range(0, 192):
+        obj = _mk(kind)
+        st = (0, 191)
+        ok = True
+        for _ in range(p):
+            st = step(obj, st, False, "transient walk")
+            if st is None:
+                ok = False
+                break
+        if ok:
+            step(obj, st, True, "transient")
+        if viol:
+            return seen, transitions, viol
+    for c in range(191, 256):
+        obj = _mk(kind)
+        st = (0, 191)
+        ok = True
+        for _ in range(c - 191):
+            st = step(obj, st, True, "transient walk")
+            if st is None:
+                ok = False
+                break
+        if ok:
+            step(obj, st, False, "transient")
+        if viol:
+            return seen, transitions, viol
+    # the torus: one Euler circuit covers every (state, op) edge exactly once
+    obj = _mk(kind)
+    st = (0, 191)
+    st = step(obj, st, False, "entry")
+    st = step(obj, st, True, "entry")
+    for op in _euler_ops():
+        st = step(obj, st, op, "euler circuit")
+        if st is None:
+            return seen, transitions, viol
+    if st != (1, 192):
+        viol.append((f"C16|counter|{kind}|circuit", f"Euler circuit ended in {st}", {"mode": "counter-circuit", "impl": kind}))
+    # independence per connection: two live objects interleaved each follow their own cycle
+    a, b = _mk(kind), _mk(kind)
+    sa = sb = (0, 191)
+    for i in range(600):
+        op = (i % 5) in (1, 3)
+        sa = step(a, sa, op, "two connections interleaved (A)")
+        if sa is None:
+            break
+        if i % 3 != 2:
+            sb = step(b, sb, not op, "two connections interleaved (B)")
+            if sb is None:
+                break
+    if not viol:
+        c = _mk(kind)  # a connection created after others were used starts its own cycles
+        sc = step(c, (0, 191), False, "fresh connection after others")
+        if sc is not None:
+            step(c, sc, True, "fresh connection after others")
     return seen, transitions, viol
 
 
@@ -101,7 +179,7 @@ def _thread_job(job):
         sock = GeckoUdpSocket()
         sched = threads.Sched(ch, ("geckolib/driver/udp_socket.py",), opcodes=opcodes)
         sock._lock = threads.CoopLock(sched)
-        sock._sequence_counter_protocol, sock._sequence_counter_command = start
+        _advance(sock, start)
 
         def mk(i):
             def run():
@@ -127,7 +205,8 @@ def _thread_job(job):
             got = {False: [], True: []}
             for i, r in enumerate(res):
                 got[kinds[i]].extend(r or [])
-            final = (sock._sequence_counter_protocol, sock._sequence_counter_command)
+            final = st if (sock.get_and_increment_sequence_counter(False) == ref_next(st, False)[1]
+                           and sock.get_and_increment_sequence_counter(True) == ref_next(st, True)[1]) else "diverged"
             per_thread_ok = all(
                 all(ref_gap_ok(r[j], r[j + 1], kinds[i]) for j in range(len(r) - 1)) for i, r in enumerate(res)
             )
@@ -260,7 +339,7 @@ def _wire_threaded():
     snap = lib.default_snapshot()
     for start in ((0, 191), (190, 254), (191, 255)):
         spa = GeckoSpa(_Desc())
-        spa._sequence_counter_protocol, spa._sequence_counter_command = start
+        _advance(spa, start)
         spa.pack_type = 10
         spa.config_version = snap.config_version
         spa.log_version = snap.log_version
@@ -377,16 +456,9 @@ def run(ctx):
 
 def replay(ctx, data):
     mode = data.get("mode")
-    if mode == "counter":
-        obj = _mk(data["impl"])
-        st = tuple(data["state"])
-        obj._sequence_counter_protocol, obj._sequence_counter_command = st
-        got = obj.get_and_increment_sequence_counter(data["command"])
-        exp_state, exp = ref_next(st, data["command"])
-        nxt = (obj._sequence_counter_protocol, obj._sequence_counter_command)
-        if got != exp or nxt != exp_state:
-            ctx.violation(f"C16|counter|{data['impl']}|command={data['command']}|state={st}",
-                          f"returned {got}/{nxt}, model {exp}/{exp_state}", data)
+    if mode in ("counter", "counter-circuit"):
+        seen, tr, viol = _bfs(data["impl"])
+        ctx.merge_violations(viol)
     elif mode == "threads":
         cfg = (data["nthreads"], data["ncalls"], tuple(data["kinds"]), tuple(data["start"]), data["opcodes"])
         res = _thread_job((cfg, [tuple(p) for p in data["prefix"]]))
